@@ -49,6 +49,7 @@ NEAR_RD = 2500        # reward denominator of the near-tie family: rewards diffe
 LARGE_RM = 900        # reward multiplier of the large-magnitude family: costs of -900, -1800, ... per step
 HUGE_RM = 10 ** 7     # huge-magnitude family: rewards of 1e7 .. 3e7 with transition probabilities in thirds / sevenths
 SMALL_RD, SMALL_BASE = 2 ** 18, 256     # small near-tie profile: rewards ~ +-0.001, +-0.002, gaps 2**-18, 2**-17
+MIXED_SM = [10 ** 8, 10 ** 9]         # mixed-magnitude family: per-state multiplier of the "big" component
 SWEEPS = [(1, 2), (3, 4), (1, 1), (0, 1)]     # discounts a call-history case switches to (mdp.discount_rate changed in place)
 ISCLOSE_ATOL, ISCLOSE_RTOL = 1e-8, 1e-5     # np.isclose defaults = the tie window of msdm's improvement steps
 
@@ -170,6 +171,50 @@ def lacking_action_case(rng):
     return m
 
 
+def mixed_case(rng):
+    """Mixed-magnitude family: a small component (near-tie twin of profile "unit": rewards of order 1, two actions of one
+    state 4e-4 or 8e-4 apart, discounted 1/2, 3/4 or undiscounted, <= 2 non-absorbing states) next to a decoupled big
+    component (1-2 states whose rewards carry the per-state multiplier SM = 1e8 or 1e9); the two only share absorbing
+    states and the initial distribution.  A tie tolerance that is relative to the largest entry of a whole table
+    (msdm c58857c) ties the two near-tied actions of the small state; one relative to the row does not."""
+    while True:
+        m, tie = near_tie_case(rng)
+        n_na = sum(1 for x in m["abs"] if not x)
+        if tie["profile"] == "unit" and tie["kind"] != "gain" and n_na <= 2:
+            break
+    N, K, RD = m["N"], m["K"], m["RD"]
+    nb = 1 if n_na == 2 else rng.choice([1, 2])
+    big = list(range(N, N + nb))
+    absorbing = [x for x in range(N) if m["abs"][x]]
+    for x in range(N):
+        for a in range(K):
+            m["P"][x][a] += [0] * nb
+            m["R"][x][a] += [0] * nb
+    for b in big:
+        Pb, Rb = [], []
+        for a in range(K):
+            row = [0] * (N + nb)
+            targets = big + (absorbing if rng.random() < 0.4 else [])
+            if rng.random() < 0.5 or len(targets) == 1:
+                row[rng.choice(targets)] = 2
+            else:
+                t1, t2 = rng.sample(targets, 2)
+                row[t1], row[t2] = 1, 1
+            Pb.append(row)
+            Rb.append([rng.choice([-2, -1, 1, 2, 3]) * RD] * (N + nb))
+        m["P"].append(Pb)
+        m["R"].append(Rb)
+        m["avail"].append([1] * K)
+        m["abs"].append(0)
+    m["N"] = N + nb
+    m["SM"] = [1] * N + [rng.choice(MIXED_SM)] * nb
+    m["ID"] = 2
+    m["p0"] = [0] * (N + nb)
+    m["p0"][tie["s"]] += 1
+    m["p0"][rng.choice(big)] += 1
+    return m, tie
+
+
 def huge_case(rng):
     """Huge-magnitude family: undiscounted, rewards multiplied by RM = 1e7, transition rows with at least two
     successors and probabilities in thirds (3 states) or sevenths (2 states) - so every computed gain carries ordinary
@@ -220,6 +265,15 @@ def make_cases(rng, n, tier):
                 rep["explicit_list"] = True
             cases.append({"m": m, "rep": rep, "n_inits": 1, "all_rules": False, "tie": tie})
             continue
+        if len(cases) % 16 == 13:               # every 16th case: mixed magnitudes (small near-tie component + 1e8..1e9 component)
+            m, tie = mixed_case(rng)
+            if not gen.magnitude_ok(m, QD=3):
+                continue
+            rep = dict(REPS[rng.randrange(len(REPS))])
+            if not rep["explicit_list"] and not gen.ghost_closed(m):
+                rep["explicit_list"] = True
+            cases.append({"m": m, "rep": rep, "n_inits": 1, "all_rules": False, "tie": tie, "mixed": True})
+            continue
         if len(cases) % 16 == 5:                # every 16th case: huge rewards (x 1e7), probabilities in thirds / sevenths
             m = huge_case(rng)
             if not gen.magnitude_ok(m, QD=3):
@@ -261,6 +315,12 @@ def make_cases(rng, n, tier):
             alts = [g for g in SWEEPS if g != (m["GN"], m["GD"]) and gen.magnitude_ok(dict(m, GN=g[0], GD=g[1]), QD=3)]
             if alts:
                 case["sweep"] = list(rng.choice(alts))
+        # input representation: actions(s) lists one of its actions twice (a listing built as common + local actions)
+        if rng.random() < 0.2:
+            case["dup_actions"] = True
+        # call history: the start distribution of the same MDP object is changed in place, then planned again
+        if rng.random() < 0.2 and rep["rep"] != "matrices":
+            case["start_sweep"] = rng.randrange(10 ** 6)
         cases.append(case)
     return cases
 
@@ -287,9 +347,15 @@ def prepare(case, tamper_build=None):
     rng = random.Random(digest(case))
     mb = tamper_build(m) if tamper_build else m
     RD, RM = m.get("RD", 1), m.get("RM", 1)
-    if RD != 1 or RM != 1:                        # msdm gets the real rewards R * RM / RD, TLC the integer numerators
-        mb = dict(mb, R=[[[x * RM / RD for x in row] for row in act] for act in mb["R"]])
+    SM = m.get("SM") or [1] * m["N"]
+    mb = dict(mb, p0=list(mb["p0"]))              # own list: the builder's initial_state_dist reads it at every call
+    if RD != 1 or RM != 1 or any(x != 1 for x in SM):
+        # msdm gets the real rewards R * SM[s] * RM / RD, TLC the integer numerators
+        mb = dict(mb, R=[[[x * SM[st] * RM / RD for x in row] for row in act] for st, act in enumerate(mb["R"])])
     b = build.build_mdp(mb, rng=rng, **rep)
+    if case.get("dup_actions"):
+        orig_actions = b.mdp.actions
+        b.mdp.actions = lambda st, _f=orig_actions: tuple(_f(st)) + tuple(_f(st))[:1]
     sl, al = list(b.mdp.state_list), list(b.mdp.action_list)
     si = [b.sidx(x) for x in sl]
     ai = [b.aidx(x) for x in al]
@@ -311,7 +377,7 @@ def prepare(case, tamper_build=None):
                     R[i][j][pos[t]] = m["R"][s][a][t]
     mp = {"N": N, "K": K, "PD": m["PD"], "GN": m["GN"], "GD": m["GD"], "ID": m["ID"],
           "abs": [m["abs"][s] for s in si], "avail": avail, "P": P, "R": R,
-          "p0": [m["p0"][s] for s in si], "CAP": m["CAP"], "RD": RD, "RM": RM}
+          "p0": [m["p0"][s] for s in si], "CAP": m["CAP"], "RD": RD, "RM": RM, "SM": [SM[x] for x in si]}
     if sum(mp["p0"]) != m["ID"]:
         raise TLCFailure("generator: initial support outside the state list")
     # initial decision rules (1-based, list order): random available actions, at absorbing states too
@@ -502,8 +568,10 @@ def get_planner(planners, cap):
     return planners[cap]
 
 
-def run_plan(b, cap, planner=None, set_discount=None):
-    """plan_on with the given planner object; set_discount: change mdp.discount_rate in place first."""
+def run_plan(b, cap, planner=None, set_discount=None, set_p0=None):
+    """plan_on with the given planner object; set_discount: change mdp.discount_rate in place first; set_p0 (numerators
+    in the planner's state order): change the start distribution of the SAME MDP object in place first (the builder's
+    initial_state_dist() reads the list b.m["p0"] at every call)."""
     mdp = b.mdp
     if planner is None:
         planner = get_planner(None, cap)
@@ -511,6 +579,11 @@ def run_plan(b, cap, planner=None, set_discount=None):
     try:
         if set_discount is not None:
             mdp.discount_rate = set_discount
+        if set_p0 is not None:
+            new = [0] * len(b.m["p0"])
+            for lab, x in zip(sl, set_p0):
+                new[b.sidx(lab)] = x
+            b.m["p0"][:] = new
         with warnings.catch_warnings():
             warnings.simplefilter("ignore")
             with np.errstate(all="ignore"):
@@ -557,7 +630,8 @@ def magnitude(mp):
     """Magnitude of the data the linear-algebra outputs are computed from: largest real reward times the horizon
     factor (1/(1-discount), resp. the number of states for relative values).  Round-off of a direct solve is
     relative to THIS, not to the individual output (an exact 0 among values of 1e7 is not computed to 1e-9)."""
-    rmax = max([abs(x) for act in mp["R"] for row in act for x in row] + [0]) * mp.get("RM", 1) / mp.get("RD", 1)
+    sm = mp.get("SM") or [1] * mp["N"]
+    rmax = max([abs(x) * sm[st] for st, act in enumerate(mp["R"]) for row in act for x in row] + [0]) * mp.get("RM", 1) / mp.get("RD", 1)
     g = mp["GN"] / mp["GD"]
     return max(1.0, rmax * (1 / (1 - g) if g < 1 else mp["N"]))
 
@@ -580,6 +654,12 @@ def same(x, exact, scale=1.0):
     return dev(x, exact, scale) == "ok"
 
 
+def units_of(orc):
+    """Per state: real quantity at s = TLC quantity / rds[s]  (= * SM[s] * RM / RD)."""
+    rd = F(orc["rd"], orc["rm"])
+    return [rd / x for x in orc["sm"]]
+
+
 def fr(x, rd=1):
     """[n, d] from TLC in units of 1/rd -> Fraction / +-inf / None."""
     v = frac(x)
@@ -590,14 +670,15 @@ NAN_ROW_SIGNATURE = "C16:MultichainPolicyIteration.plan_on:policy-nan-row:roundo
 
 
 def nan_rows_by_roundoff(o, mrec, scale):
-    """Recognises the REGRESSION of a defect that msdm fixed in ca7fa02 / c58857c (known_findings: status fixed, which
-    suppresses nothing - a NaN row is always a VIOLATION, this only chooses the signature).  Before the fix plan_on
-    intersected the maximisers of action_gain and of action_value at an ABSOLUTE tolerance 1e-10 (rtol = 0): with
-    round-off above 1e-10 in those tables the intersection was empty and the row 0/0.  Since c58857c the tolerance is
-    1e-10 * (largest finite table entry) and the value maximisers are taken among the gain maximisers, so a row cannot
-    be empty any more.  Recognised from the reported tables: the NaN rows are precisely the rows where the OLD absolute
-    test leaves nothing, and at a tolerance relative to the magnitude of the data the surviving actions are exactly
-    the support of the exact machine.  Returns the rows or None (then the generic policy-support signature is used)."""
+    """Recognises the REGRESSION of a defect that msdm fixed (ca7fa02, c58857c, 6cc37cd; known_findings: status fixed,
+    which suppresses nothing - a NaN or otherwise ill-formed row is always a VIOLATION, this only chooses the
+    signature).  Originally plan_on intersected the maximisers of action_gain and of action_value at an ABSOLUTE
+    tolerance 1e-10 (rtol = 0): with round-off above 1e-10 in those tables the intersection was empty and the row 0/0.
+    Since 6cc37cd the tolerance is 1e-10 * max(1, |row maximum|) per table and a state where the intersection is empty
+    keeps the action the iteration stopped with, so an empty intersection can no longer produce NaN.  Recognised from
+    the reported tables: the NaN rows are precisely the rows where the OLD absolute test leaves nothing, and at a
+    tolerance relative to the magnitude of the data the surviving actions are exactly the support of the exact
+    machine.  Returns the rows or None (then the generic policy-support signature is used)."""
     if mrec["phase"] != "done" or not mrec.get("sup"):
         return None
     rows = []
@@ -620,7 +701,7 @@ def nan_rows_by_roundoff(o, mrec, scale):
     return rows or None
 
 
-def inside_isclose_window(jr, got, rd, scale=1.0):
+def inside_isclose_window(jr, got, rds, scale=1.0):
     """Is a converged run whose result differs from the optimum explained by msdm's OWN tie tolerance?
     Yes iff (a) the reported values are the exact evaluation of the returned policy (1e-9), and (b) the rule the
     policy rests on passes the code's stopping tests with exact numbers: every gain / bias gap computed by the
@@ -629,11 +710,11 @@ def inside_isclose_window(jr, got, rd, scale=1.0):
     if jr is None or not jr.get("wellformed") or not jr.get("stop"):
         return False
     for s, x in enumerate(got):
-        if dev(x, fr(jr["pv"][s], rd), scale) != "ok":
+        if dev(x, fr(jr["pv"][s], rds[s]), scale) != "ok":
             return False
-    for st in jr["stop"]:
+    for s, st in enumerate(jr["stop"]):
         for gap, mx in (("ggap", "gmax"), ("bgap", "bmax")):
-            if float(fr(st[gap], rd)) > ISCLOSE_ATOL + ISCLOSE_RTOL * abs(float(fr(st[mx], rd))):
+            if float(fr(st[gap], rds[s])) > ISCLOSE_ATOL + ISCLOSE_RTOL * abs(float(fr(st[mx], rds[s]))):
                 return False
     return True
 
@@ -656,7 +737,7 @@ def shape_of(orc, mp):
     return base + ("+absorbing" if has_abs else "")
 
 
-def machine_explains(mrec, o, plan, rd=1, scale=1.0, skip_support=False):
+def machine_explains(mrec, o, plan, rds, scale=1.0, skip_support=False):
     """First difference between a machine record and a real run, or None (DRIFT level only)."""
     if "error" in o:
         if mrec["phase"] == "cap" and not mrec["bqdef"] and o["error"] == "UnboundLocalError":
@@ -670,28 +751,60 @@ def machine_explains(mrec, o, plan, rd=1, scale=1.0, skip_support=False):
         return f"iterations/converged: machine {mrec['its']}/{mrec['conv']} code {o['its']}/{o['conv']}"
     N = len(mrec["g"])
     for s in range(N):
-        if not same(o["gain"][s], fr(mrec["g"][s], rd), scale):
+        if not same(o["gain"][s], fr(mrec["g"][s], rds[s]), scale):
             return f"gain[{s}]: machine {mrec['g'][s]} code {o['gain'][s]}"
-        if not same(o["val"][s], fr(mrec["h"][s], rd), scale):
+        if not same(o["val"][s], fr(mrec["h"][s], rds[s]), scale):
             return f"bias[{s}]: machine {mrec['h'][s]} code {o['val'][s]}"
         for a in range(len(mrec["gq"][s])):
-            if not same(o["gq"][s][a], fr(mrec["gq"][s][a], rd), scale):
+            if not same(o["gq"][s][a], fr(mrec["gq"][s][a], rds[s]), scale):
                 return f"action_gain[{s}][{a}]: machine {mrec['gq'][s][a]} code {o['gq'][s][a]}"
-            if mrec["bqdef"] and not same(o["bq"][s][a], fr(mrec["bq"][s][a], rd), scale):
+            if mrec["bqdef"] and not same(o["bq"][s][a], fr(mrec["bq"][s][a], rds[s]), scale):
                 return f"action_bias[{s}][{a}]: machine {mrec['bq'][s][a]} code {o['bq'][s][a]}"
     if plan:
         if mrec["phase"] == "done" and not skip_support:
             for s in range(N):
                 sup = {a for a, p in enumerate(o["polw"][s]) if p > 0}
                 msup = {a - 1 for a in mrec["sup"][s]}
-                # the code tests ties at an ABSOLUTE 1e-10; once the data are of magnitude >= 1e3 the round-off of the
-                # tables can exceed that, and which of the exactly tied maximisers survive is noise: any non-empty
-                # subset of the exact support is then explained
+                # the code tests ties at 1e-10 relative to the row maximum; once the data are of magnitude >= 1e3
+                # (mixed magnitudes: a small row next to rows of 1e9) the round-off of the tables can exceed that, and
+                # which of the exactly tied maximisers survive - or that only the iteration's final action is kept -
+                # is noise: any non-empty subset of the exact support is then explained
                 if sup != msup and not (scale >= 1e3 and sup and sup <= msup):
                     return f"policy support[{s}]: machine {mrec['sup'][s]} code {sorted(x + 1 for x in sup)}"
     elif mrec["pol"] != o["pol"]:
         return f"final rule: machine {mrec['pol']} code {o['pol']}"
     return None
+
+
+def add_judge_entry(judge_batch, i, mp, orc, key, o):
+    """Pipeline B record (one Plan event) for the policy a converged run returned."""
+    if "error" in o or not o["conv"]:
+        return
+    base = {k: mp[k] for k in ("N", "K", "PD", "GN", "GD", "ID", "RD", "RM", "SM", "abs", "avail", "P", "R", "p0")}
+    if key in ("plan", "stream"):
+        rows, okrows = [], True
+        for s in range(mp["N"]):
+            row = o["polw"][s]
+            if mp["abs"][s]:
+                # never executed; its support is still checked (weights only if representable)
+                w = int_weights(row) if all(math.isfinite(p) and p >= 0 for p in row) else None
+                rows.append(w if w is not None else list(mp["avail"][s]))
+                continue
+            if any((not math.isfinite(p)) or p < -1e-12 for p in row) or abs(sum(row) - 1) > 1e-9:
+                okrows = False
+                break
+            w = int_weights([max(p, 0.0) for p in row])
+            if w is None:
+                okrows = None
+                break
+            rows.append(w)
+        o["rows_ok"] = okrows
+        if okrows:
+            judge_batch.append(dict(base, w=rows, exp=orc["v"], tag=f"{i}:{key}"))
+    else:
+        rows = [[1 if o["pol"][s] == a + 1 else 0 for a in range(mp["K"])] for s in range(mp["N"])]
+        if all(1 <= o["pol"][s] <= mp["K"] for s in range(mp["N"])):
+            judge_batch.append(dict(base, w=rows, exp=orc["v"], tag=f"{i}:{','.join(map(str, key))}"))
 
 
 # --------------------------------------------------------------------------------------------
@@ -705,7 +818,19 @@ def judge_cases(ctx, cases, *, tamper_build=None, tamper_real=None, steps=True):
         b, mp = prepare(c, tamper_build if (tamper_build and k == 0) else None)
         units.append((c, b, mp, None))
         if c.get("sweep"):
-            units.append((c, b, dict(mp, GN=c["sweep"][0], GD=c["sweep"][1]), "sweep"))
+            mp = dict(mp, GN=c["sweep"][0], GD=c["sweep"][1])
+            units.append((c, b, mp, "sweep"))
+        if c.get("start_sweep") is not None:
+            # third kind of call history: the start distribution of the same MDP object changes in place (within the
+            # same state list), then the same planner plans it again; per-state results and aggregates judged afresh
+            r2 = random.Random(c["start_sweep"])
+            for _ in range(20):
+                p0 = [0] * mp["N"]
+                for _u in range(mp["ID"]):
+                    p0[r2.randrange(mp["N"])] += 1
+                if p0 != mp["p0"]:
+                    break
+            units.append((c, b, dict(mp, p0=p0, inits=[]), "start"))
     batch = [mp for _, _, mp, _ in units]
     planners = {}
     res = run_tlc(ctx.workdir / "mc", MODULE, CFG_MC, files={"batch.json": batch},
@@ -741,11 +866,11 @@ def judge_cases(ctx, cases, *, tamper_build=None, tamper_real=None, steps=True):
         orc = orcs.get(i)
         if orc is None:
             raise TLCFailure(f"no oracle record for case {i}")
-        rd = F(orc["rd"], orc["rm"])                      # real quantity = TLC quantity / rd  (= * RM / RD)
-        if (orc["rd"], orc["rm"]) != (mp["RD"], mp["RM"]):
-            raise TLCFailure(f"reward scaling of case {i}: spec {orc['rd']}/{orc['rm']}, harness {mp['RD']}/{mp['RM']}")
-        raw = [frac(x) for x in orc["v"]]                 # in units of 1/rd, as TLC and the Python oracles compute
-        exact = [x / rd for x in raw]
+        rds = units_of(orc)                               # real quantity at s = TLC quantity / rds[s]
+        if (orc["rd"], orc["rm"], orc["sm"]) != (mp["RD"], mp["RM"], mp["SM"]):
+            raise TLCFailure(f"reward scaling of case {i}: spec {orc['rd']}/{orc['rm']}/{orc['sm']}, harness {mp['RD']}/{mp['RM']}/{mp['SM']}")
+        raw = [frac(x) for x in orc["v"]]                 # in TLC's units, as the Python oracles compute too
+        exact = [x / rds[s] for s, x in enumerate(raw)]
         # ---- machinery cross-checks of the TLA+ oracle
         if i % 3 == 0:
             pv = py_optimum(mp)
@@ -765,7 +890,8 @@ def judge_cases(ctx, cases, *, tamper_build=None, tamper_real=None, steps=True):
         # every plan_on of a chunk goes through one planner object per max_iterations (reuse across MDP objects);
         # the second unit of a call-history case first changes mdp.discount_rate in place
         outs = {"plan": run_plan(b, mp["CAP"], planner=get_planner(planners, mp["CAP"]),
-                                 set_discount=gamma_of(mp) if role == "sweep" else None)}
+                                 set_discount=gamma_of(mp) if role == "sweep" else None,
+                                 set_p0=mp["p0"] if role == "start" else None)}
         ctx.evaluations += 1
         myruns = runs.get(i, {})
         if tuple(default) not in myruns:
@@ -776,35 +902,29 @@ def judge_cases(ctx, cases, *, tamper_build=None, tamper_real=None, steps=True):
         if tamper_real is not None:
             tamper_real(i, outs, mp, orc)
         # ---- judge batch: policies returned by converged runs
-        base = {k: mp[k] for k in ("N", "K", "PD", "GN", "GD", "ID", "RD", "RM", "abs", "avail", "P", "R", "p0")}
         for key, o in outs.items():
-            if "error" in o or not o["conv"]:
-                continue
-            if key == "plan":
-                rows, okrows = [], True
-                for s in range(mp["N"]):
-                    row = o["polw"][s]
-                    if mp["abs"][s]:
-                        # never executed; its support is still checked (weights only if representable)
-                        w = int_weights(row) if all(math.isfinite(p) and p >= 0 for p in row) else None
-                        rows.append(w if w is not None else list(mp["avail"][s]))
-                        continue
-                    if any((not math.isfinite(p)) or p < -1e-12 for p in row) or abs(sum(row) - 1) > 1e-9:
-                        okrows = False
-                        break
-                    w = int_weights([max(p, 0.0) for p in row])
-                    if w is None:
-                        okrows = None
-                        break
-                    rows.append(w)
-                o["rows_ok"] = okrows
-                if okrows:
-                    judge_batch.append(dict(base, w=rows, exp=orc["v"], tag=f"{i}:plan"))
-            else:
-                rows = [[1 if o["pol"][s] == a + 1 else 0 for a in range(mp["K"])] for s in range(mp["N"])]
-                if all(1 <= o["pol"][s] <= mp["K"] for s in range(mp["N"])):
-                    judge_batch.append(dict(base, w=rows, exp=orc["v"], tag=f"{i}:{','.join(map(str, key))}"))
+            add_judge_entry(judge_batch, i, mp, orc, key, o)
         pending.append((i, c, b, mp, role, orc, exact, myruns, outs))
+    # ---- call history, part 3: ONE planner object over a stream of short-lived MDP objects (build, plan, drop, build
+    # the next - a parameter sweep in a helper function): every second unit, ordered so that equal (discount,
+    # max_iterations) follow each other, is rebuilt as a fresh object, planned with the chunk's shared planner and
+    # dropped before the next one is built (CPython then reuses the address).  Judged like any plan_on result.
+    if tamper_real is None and tamper_build is None:
+        def stream_one(c, mp, role):
+            b2, _ = prepare(c)
+            o = run_plan(b2, mp["CAP"], planner=get_planner(planners, mp["CAP"]),
+                         set_discount=gamma_of(mp) if role == "sweep" else None)
+            o.pop("_obj", None)
+            return o
+        order = sorted(range(len(pending)), key=lambda k: (pending[k][3]["GN"] / pending[k][3]["GD"], pending[k][3]["CAP"], k))
+        for k in order[::2]:
+            i, c, b, mp, role, orc, exact, myruns, outs = pending[k]
+            if role == "start":
+                continue
+            outs["stream"] = stream_one(c, mp, role)
+            add_judge_entry(judge_batch, i, mp, orc, "stream", outs["stream"])
+            ctx.evaluations += 1
+            ctx.count("call_history:stream_of_short_lived_mdp_objects")
     # ---- call history, part 2: every earlier result object is read again now that all later plan_on calls of the
     # chunk (same and other planner objects, many MDPs with the same number of states, other rewards) have run; a
     # result must be a value, not a view of something a later call overwrites.  What changed is judged again.
@@ -846,7 +966,7 @@ def judge_cases(ctx, cases, *, tamper_build=None, tamper_real=None, steps=True):
 
 def judge_one(ctx, jby, steps, i, c, b, mp, role, orc, exact, myruns, outs):
     N, K = mp["N"], mp["K"]
-    rd = F(orc["rd"], orc["rm"])
+    rds = units_of(orc)
     scale = magnitude(mp)
     # At magnitude >= 1e6 the ABSOLUTE tolerances inside msdm (np.isclose atol 1e-8 in the improvement steps) are
     # below the round-off of its own tables, so which exactly tied action it keeps / whether it ping-pongs on noise
@@ -856,7 +976,7 @@ def judge_one(ctx, jby, steps, i, c, b, mp, role, orc, exact, myruns, outs):
     noisy = scale >= 1e6
     disc = orc["disc"]
     shape = shape_of(orc, mp) + (("+near-tie-rewards" if c["tie"].get("profile") != "small" else "+small-near-tie-rewards") if c.get("tie") else "") \
-        + ("+large-rewards" if mp["RM"] == LARGE_RM else "+huge-rewards" if mp["RM"] != 1 else "") + ("+discount0" if mp["GN"] == 0 else "")
+        + ("+large-rewards" if mp["RM"] == LARGE_RM else "+huge-rewards" if mp["RM"] != 1 else "") + ("+discount0" if mp["GN"] == 0 else "") + ("+mixed-magnitudes" if c.get("mixed") else "")
     if role == "sweep":
         ctx.count("call_history:second_plan_on_after_discount_rate_changed_in_place")
     default = tuple(min(j + 1 for j in range(K) if mp["avail"][s][j]) for s in range(N))
@@ -865,26 +985,30 @@ def judge_one(ctx, jby, steps, i, c, b, mp, role, orc, exact, myruns, outs):
     ctx.count(f"shape:{shape}")
 
     for key, o in outs.items():
-        plan = key == "plan"
+        plan = key in ("plan", "stream")
         p0 = default if plan else key
         mrecs = myruns[p0]
         nanrows = None
         if plan and o.get("rows_ok") is False:
             nanrows = next((x for x in (nan_rows_by_roundoff(o, r, scale) for r in mrecs) if x), None)
-        whys = [machine_explains(r, o, plan, rd, scale, skip_support=bool(nanrows)) for r in mrecs]
+        whys = [machine_explains(r, o, plan, rds, scale, skip_support=bool(nanrows)) for r in mrecs]
         k_ok = next((k for k, w in enumerate(whys) if w is None), 0)
         mrec = mrecs[k_ok]                    # the behaviour that explains the run (else the first one)
         predicts_unbound = any(r["phase"] == "cap" and not r["bqdef"] for r in mrecs)
         site = "MultichainPolicyIteration.plan_on" if plan else "multichain_policy_iteration_vectorized[policy=given]"
         if plan and role == "sweep":
             site += "[2nd call, same planner and MDP objects, discount_rate changed in place]"
-        tag = f"{i}:plan" if plan else f"{i}:{','.join(map(str, key))}"
+        if plan and role == "start":
+            site += "[later call, same planner and MDP objects, start distribution changed in place]"
+        if key == "stream":
+            site += "[same planner, fresh short-lived MDP object]"
+        tag = f"{i}:{key}" if plan else f"{i}:{','.join(map(str, key))}"
 
         def fail(clause, what, extra=None):
             nonlocal case_ok
             case_ok = False
             ctx.violation(f"C16:{site}:{clause}:{shape}", f"{site} {clause} ({shape}): {what}",
-                          {"case": c, "unit": role or "first", "run": "plan" if plan else list(key), "clause": clause, "extra": extra})
+                          {"case": c, "unit": role or "first", "run": key if plan else list(key), "clause": clause, "extra": extra})
 
         ctx.count(f"machine_phase:{mrec['phase']}")
         if len(mrecs) > 1:
@@ -927,7 +1051,7 @@ def judge_one(ctx, jby, steps, i, c, b, mp, role, orc, exact, myruns, outs):
         def window():
             nonlocal excused
             if excused is None:
-                excused = inside_isclose_window(jr, got, rd, scale)
+                excused = inside_isclose_window(jr, got, rds, scale)
                 if excused:
                     ctx.drift("tie-window", {"case": digest(c), "run": tag, "got": got, "optimum": [str(x) for x in exact]})
             return excused
@@ -943,7 +1067,7 @@ def judge_one(ctx, jby, steps, i, c, b, mp, role, orc, exact, myruns, outs):
                 break
         # ---- the same result object read again after all later plan_on calls of the chunk: whatever changed is judged
         # like a fresh result (a result that is a view of a shared buffer shows another problem's numbers)
-        if plan and o.get("late"):
+        if key == "plan" and o.get("late"):
             late = o["late"]
             run_ok = False
             if "error" in late:
@@ -961,7 +1085,7 @@ def judge_one(ctx, jby, steps, i, c, b, mp, role, orc, exact, myruns, outs):
         # ---- clauses on the returned policy
         if plan:
             if o.get("rows_ok") is False and nanrows:
-                # regression of the defect fixed in ca7fa02 / c58857c, with its own signature: converged, values / gains
+                # regression of the defect fixed in ca7fa02 / c58857c / 6cc37cd, with its own signature: converged, values / gains
                 # right, but the policy rows `nanrows` are 0/0 because an absolute 1e-10 tie test of the policy
                 # extraction is below the round-off of tables of this magnitude
                 case_ok = False
@@ -992,15 +1116,15 @@ def judge_one(ctx, jby, steps, i, c, b, mp, role, orc, exact, myruns, outs):
                             run_ok = False
                             if not window():
                                 fail("policy-attains", f"exact {'value' if disc else 'gain'} of the returned policy at state {s} is "
-                                                       f"{fr(jr['pv'][s], rd)}, the optimum is {exact[s]}",
-                                     {"policy_value": jr["pv"], "optimum": orc["v"], "rd": rd})
+                                                       f"{fr(jr['pv'][s], rds[s])}, the optimum is {exact[s]}",
+                                     {"policy_value": jr["pv"], "optimum": orc["v"], "units": [str(x) for x in rds]})
                             break
         # ---- clause: aggregates over the initial distribution = the optimal value / gain of the initial distribution.
         # (The statement's "state values / per-state gain equal the optimum", read on the initial distribution the
         # result reports them for.)  Excused by the tie window only together with an excused per-state deviation it is
         # the probability-weighted sum of.
         if plan:
-            einit = fr(orc["init"], rd)
+            einit = sum(F(mp["p0"][s], mp["ID"]) * exact[s] for s in range(N) if mp["p0"][s])
             name, rep_init = ("initial_value", o["init_value"]) if disc else ("initial_gain", o["init_gain"])
             if dev(rep_init, einit, scale) == "bad":
                 run_ok = False
@@ -1030,7 +1154,7 @@ def judge_one(ctx, jby, steps, i, c, b, mp, role, orc, exact, myruns, outs):
             if frm in stops:
                 mrec = stops[frm]
                 okstep = "error" not in o and tuple(o["pol"]) == frm and all(
-                    same(o["gain"][s], fr(mrec["g"][s], rd), scale) and same(o["val"][s], fr(mrec["h"][s], rd), scale) for s in range(N))
+                    same(o["gain"][s], fr(mrec["g"][s], rds[s]), scale) and same(o["val"][s], fr(mrec["h"][s], rds[s]), scale) for s in range(N))
                 ctx.count("step_replay:stop")
                 expected = "stop"
             else:
@@ -1050,7 +1174,7 @@ def judge_one(ctx, jby, steps, i, c, b, mp, role, orc, exact, myruns, outs):
     n_na = sum(1 for x in mp["abs"] if not x)
     if any_conv and n_na >= 2 and orc["nvals"] >= 2:
         ctx.nontrivial(digest({"m": mp, "rep": c["rep"]}))
-    ctx.sample({"instance_in_planner_order": {k: mp[k] for k in ("N", "K", "PD", "GN", "GD", "RD", "RM", "abs", "avail", "P", "R", "p0", "CAP")},
+    ctx.sample({"instance_in_planner_order": {k: mp[k] for k in ("N", "K", "PD", "GN", "GD", "RD", "RM", "SM", "abs", "avail", "P", "R", "p0", "CAP")},
                 "rep": c["rep"], "shape": shape, "optimum": [str(x) for x in exact],
                 "plan_on": {k: outs["plan"].get(k) for k in ("its", "conv", "gain", "val", "error")}})
 
@@ -1070,6 +1194,9 @@ def run(ctx):
                 "MDP objects, mdp.discount_rate changed in place to another of {1/2,3/4,1}, second result judged like a fresh one); "
                 "every 16th case huge rewards (x 1e7) with probabilities in thirds / sevenths; discount 0 is one of the discounts (families and "
                 "in-place sweeps); near-tie profiles: rewards of order 1 (gaps 4e-4) and of order 1e-3 (gaps 2**-18); "
+"every 16th case mixed magnitudes (decoupled small near-tie component + component with per-state multiplier 1e8/1e9); 20% of the "
+                "regular cases list an action twice in actions(s); 20% change the start distribution of the same MDP object in place and plan "
+                "again; every second unit is also planned as a fresh short-lived MDP object by the shared planner (stream); "
                 "one planner object per max_iterations is reused across all MDP objects of a chunk; non-trivial = converged run on an instance with >=2 non-absorbing "
                 "listed states on which at least two deterministic policies have different exact value (gain) vectors")
     ctx.assumptions = [
